@@ -10,6 +10,9 @@ pub use preprocess::prepare_tokens;
 pub use preprocess::preprocess;
 pub use preprocess::preprocess_fragment;
 
+#[cfg(trark_rssl_verif)]
+pub use preprocess::verif;
+
 mod lexer;
 
 mod unlexer;
